@@ -64,13 +64,10 @@ Definition env_seen (s : env_site) (e : exec) : option env :=
   end.
 
 (* sites that are not an expression of a workflow / task evaluated against "the" environment:
-     tasks.RegularTask._get_timeout      builds its view without any environment layer (at every depth, the root
-                                         included): env() is null in a `timeout:` expression
      workflows._get_environment          evaluates the environment being stored against itself
      actions_adhoc...._on_visit          re-uses the view handed over by actions.RegularAction.schedule (a site of its own) *)
 Definition exempt_sites : list string :=
-  [ "tasks.RegularTask._get_timeout"
-  ; "workflows._get_environment"
+  [ "workflows._get_environment"
   ; "actions_adhoc.AdHocActionDescriptor.instantiate._on_visit" ].
 Definition env_exempt (s : env_site) : bool := existsb (String.eqb (site_name s)) exempt_sites.
 
